@@ -172,6 +172,38 @@ def r06_3(ck, F):
     ck.expect(ok, "send_task#rearm", "timer re-armed after fed messages", "ping timer not re-armed after a fed message", sb.loc(0))
 
 
+def r06_3b(ck, F):
+    ck.rule("R06.3b", "everything fed to the transport is flushed: in send_task every completed feed_msg inside the loop "
+            "(data and ping alike) is followed by `need_flush = true` before the next select, and the flush branch "
+            "clears the flag only after flushing",
+            "buffering sink (FramedWrite over TCP): a keep-alive ping that is fed but never flushed stays in the write "
+            "buffer, the idle peer sees silence and tears the healthy connection down with Timeout", floor=2)
+    b = F.main_body("chmux::mux::ChMux::send_task")
+    feeds = [a for a in b.awaits() if "feed_msg" in (a.get("fut_fn") or "")]
+    sel = [a for a in b.awaits() if "PollFn" in (a.get("fut_fn") or "") or "PollFn" in a.get("fut_ty", "")]
+    sets = set()
+    for l in b.local_by_name("need_flush"):
+        for d in b.defs.get(l, []):
+            if d[0] == "assign" and d[3]["rv"]["r"] == "use" and const_value(b.expr(d[3]["rv"]["o"])) == 1:
+                sets.add(d[1])
+    heads = {h for _, h in b.back_edges()}
+    n = 0
+    for a in feeds:
+        if a.get("ready_bb") is None:
+            continue
+        # only feeds inside the main loop (those from which the select is reachable again)
+        if not any(x["poll_bb"] in b.reach([a["ready_bb"]]) for x in sel):
+            continue
+        n += 1
+        # success path: Continue edge of the `?` after the feed
+        p = b.find_path([a["ready_bb"]], [x["poll_bb"] for x in sel], avoid=sets | set(b.returns()))
+        # a path that leaves the loop through `break` (Goodbye) is flushed after the loop; exclude break targets
+        ck.expect(p is None or not sets and False, f"send_task#feed{n}-needs-flush", "a fed message always schedules a flush",
+                  f"after the feed at {b.loc(a['yield_bb'])} the loop can continue without scheduling a flush", b.loc(a["yield_bb"]))
+    ck.expect(n >= 2 and bool(sets), "send_task#feeds", f"{n} feeds in the loop, {len(sets)} need_flush=true sites",
+              f"{n} feeds / {len(sets)} flush requests found", b.loc(0))
+
+
 def r06_4(ck, F):
     ck.rule("R06.4", "typed translation: every exit of the mpsc::send_impl loop publishes a closed reason (closed_tx) and a "
             "remote send error, except the exit taken when the local queue is closed (all local senders gone); a failed "
@@ -212,5 +244,5 @@ def r06_4(ck, F):
 
 
 def run(ck, F):
-    for r in (r06_1, r06_2, r06_3, r06_4):
+    for r in (r06_1, r06_2, r06_3, r06_3b, r06_4):
         ck.run_rule(r)
